@@ -128,6 +128,11 @@ def prog_event(tid, o, i, fl, placement):
             declared = outcome_full(lambda: _s.mask(_sp.forwards(w0, g['inner'], fl['n'], *fl['names'], use_varargs=fl['uva'], use_varkwargs=fl['uvk'],
                                                                  hide_args=fl['ha'], hide_kwargs=fl['hk'], partial=fl['partial']), 1 if base == 'auto_param' else 2), fns)
             agree = 'ps'
+        elif base == 'auto_partial_nothing':
+            fn, plain_target = g['w'], g['w']
+            codes = {g['w0'].__code__}
+            fns.add(g['w0'], 'f1'); fns.add(g['inner'], 'f2')
+            declared, agree = outcome_full(declared_thunk(g['w0'], g['inner'], fl), fns), 'ps'
         elif base == 'auto_relay':
             fn, plain_target = g['w'], g['w']
             codes = {fn.__code__, g['relay'].__code__}
